@@ -98,7 +98,7 @@ class TwoInstances(nn.Module):
 
 
 def cases(tier, seed):
-    reps = 1 if tier == "quick" else 40
+    reps = 1 if tier == "quick" else 120
     out = []
     for ci, cell in enumerate(zoo.matrix()):
         for fam in ("exact", "generic"):
